@@ -51,6 +51,8 @@ example : exMachine.leavesOK {} = true := by decide +kernel
 example : exCtx.noSpinCheck = true := by decide +kernel
 /-- hypothesis of `C10_end_fail_is_final` (a FAIL from `end()` leaves the fail state behind) -/
 example : exMachine.endFailOK {} = true := by decide +kernel
+/-- hypothesis of `C10_end_fail_then_empty_chunk` (… exactly the index the empty-chunk test names) -/
+example : exMachine.endFailExact {} = true := by decide +kernel
 /-- hypothesis of C17 (no data-pattern arm is taken on end-of-input) -/
 example : exMachine.endArmsOK = true := by decide +kernel
 
